@@ -182,7 +182,8 @@ func (z *Decimal) Add(x, y *Decimal) *Decimal {
 		// ±0 + ±0
 		z.acc = Exact
 		z.form = zero
-		z.neg = x.neg && y.neg // -0 + -0 == -0
+		// -0 + -0 == -0; opposite signs give +0, or -0 under ToNegativeInf
+		z.neg = x.neg && y.neg || x.neg != y.neg && z.mode == ToNegativeInf
 		return z
 	}
 
@@ -1377,7 +1378,8 @@ func (z *Decimal) Sub(x, y *Decimal) *Decimal {
 		// ±0 - ±0
 		z.acc = Exact
 		z.form = zero
-		z.neg = x.neg && !y.neg // -0 - +0 == -0
+		// -0 - +0 == -0; like signs give +0, or -0 under ToNegativeInf
+		z.neg = x.neg && !y.neg || x.neg == y.neg && z.mode == ToNegativeInf
 		return z
 	}
 
